@@ -25,7 +25,7 @@ CONSTANTS Users,               \* user names the client may try
           CapOffset            \* disconnect at FailCap + CapOffset failures
 
 GssMethods == {"gssapi-with-mic", "gssapi-keyex"}
-Methods    == {"none", "password", "publickey", "keyboard-interactive", "bogus"} \cup GssMethods
+\* methods: none password publickey keyboard-interactive gssapi-with-mic gssapi-keyex, "bogus" = any other name
 Services   == {"ssh-connection", "other"}
 Results    == {"ok", "partial", "fail"}
 SigKinds   == {"absent", "good", "alt_sid", "omit_sid", "alt_user", "alt_service", "alt_alg", "alt_key", "wrong_key", "corrupt"}
@@ -227,7 +227,9 @@ AfterDeath == {[Rq(u, "ssh-connection", "none") EXCEPT !.cb = "ok"] : u \in User
 Alphabet == IF Focus = "cap" THEN CapMessages ELSE Messages
 Next == \E q \in (IF alive THEN Alphabet ELSE AfterDeath) : Step(q)
 Spec == Init /\ [][Next]_vars
-Bound == TLCGet("level") <= MaxDepth
+Bound == TLCGet("level") <= MaxDepth          \* CONSTRAINT; the .cfg files are written by checks/c14.py, c16.py
+                                              \* (harness/drivers/auth.py: consts, mc_cfg): INVARIANT GrantNeedsApproval OneUser
+                                              \* CapRespected, PROPERTY the step properties below, VIEW Control
 
 (* ------------------------------------------------------------------ properties *)
 (* The label of a step (req, cbs, out) is not needed to compute the next step, so the model checker  *)
